@@ -80,6 +80,16 @@ def _define():
         return UTwin
     _USER['UTwinA'], _USER['UTwinB'], _USER['UTwinK'] = twin(Exception), twin(Exception), twin(KeyError)
 
+    class UFlaky(Exception):
+        """whether type(e)(*e.args) works depends on the INSTANCE: with status= the args no longer fit the constructor"""
+        def __init__(self, msg, *, status=None):
+            if status is None:
+                super().__init__(msg)
+            else:
+                super().__init__(msg, status)
+            self.status = status
+    _USER['UFlaky'] = UFlaky
+
     for c in (UPlain, UAttr, UInitAttr, UKwOnly, UArity, UPrefix, UKeySub, UMulti, UTypeSub, UBase,
               GPlain, GAttr, GArity, GPrefix, GKwOnly, GPathSub, GMatchSub):
         _USER[c.__name__] = c
@@ -91,16 +101,18 @@ BUILTIN_NAMES = ['ValueError', 'KeyError', 'TypeError', 'IndexError', 'Attribute
 GLOM_NAMES = ['GlomError', 'PathAccessError', 'PathAssignError', 'CoalesceError', 'BadSpec', 'UnregisteredTarget', 'MatchError',
               'TypeMatchError', 'CheckError', 'PathDeleteError', 'FoldError']
 USER_NAMES = ['UPlain', 'UAttr', 'UInitAttr', 'UKwOnly', 'UArity', 'UPrefix', 'UKeySub', 'UMulti', 'UTypeSub', 'UBase',
-              'GPlain', 'GAttr', 'GArity', 'GPrefix', 'GKwOnly', 'GPathSub', 'GMatchSub', 'UTwinA', 'UTwinB', 'UTwinK']
+              'GPlain', 'GAttr', 'GArity', 'GPrefix', 'GKwOnly', 'GPathSub', 'GMatchSub', 'UTwinA', 'UTwinB', 'UTwinK', 'UFlaky']
 CATALOGUE = BUILTIN_NAMES + GLOM_NAMES + USER_NAMES
 # the classes a planted fault raises
 PLANTABLE = ['ValueError', 'KeyError', 'TypeError', 'IndexError', 'AttributeError', 'ZeroDivisionError', 'RuntimeError',
-             'AssertionError', 'OSError', 'KeyboardInterrupt', 'SystemExit', 'GeneratorExit'] + USER_NAMES
+             'AssertionError', 'OSError', 'KeyboardInterrupt', 'SystemExit', 'GeneratorExit'] + USER_NAMES + ['UFlakyBad']
 
 
 def cls(name):
     if not _USER:
         _define()
+    if name == 'UFlakyBad':          # not a class of its own: an instance of UFlaky that cannot be rebuilt from its args
+        return _USER['UFlaky']
     if name in _USER:
         return _USER[name]
     import glom
@@ -127,6 +139,8 @@ def make(name):
         e = c(code=3)
     elif name in ('UArity', 'GArity'):
         e = c('bo', 'om')
+    elif name == 'UFlakyBad':
+        e = c('boom', status=503)
     elif name == 'GPathSub':
         e = c(KeyError('k'), 'a.b', 1)
     elif name == 'GMatchSub':
